@@ -1,6 +1,7 @@
 package main
 
 import (
+	"crypto/x509"
 	"crypto/x509/pkix"
 	"fmt"
 	"strings"
@@ -59,6 +60,10 @@ func runC16(c *Ctx) {
 				if len(cf.extra) > 0 && cf.extra[0] == "-cades" && r%2 == 1 {
 					// the signing-certificate attribute holds the issuer: its size decides how the attributes sort
 					cert = mintCert(key, pkix.Name{CommonName: "A"}, genSerial(rng))
+				}
+				if (i+r)%4 == 3 {
+					// a signing certificate that was itself signed with SHA-512
+					cert = mintCertAlg(key, genIssuer(rng), genSerial(rng), x509.SHA512WithRSA)
 				}
 				content := randBytes(rng, 1+rng.Intn(400))
 				b, err := opensslSign(c.Work, cf.tool, key, cert, content, cf.extra...)
